@@ -424,7 +424,7 @@ func (m *distMonitor) checkMintEvent(r *kernel.Run, evs []abci.Event, mints []tr
 // spendableAt: balance before the block minus what is locked at this block's time (vesting schedules move with the clock).
 func (m *distMonitor) spendableAt(r *kernel.Run, addr sdk.AccAddress) sdk.Coins {
 	bal := m.pre[addr.String()]
-	locked := r.Chain.App.BankKeeper.LockedCoins(r.Chain.Ctx(), addr)
+	locked, _ := r.Chain.SafeLockedCoins(addr)
 	sp, neg := bal.SafeSub(locked...)
 	if neg {
 		out := sdk.NewCoins()
